@@ -105,11 +105,15 @@ class LenaSequence(object):
         # static context we don't need to know any more (it is the end).
 
         for el in self._seq:
-            if hasattr(el, "_set_context") and context:
-                # skip empty context as an optimisation
-                # (el could be a big sequence).
-                # Every element with _set_context
+            if hasattr(el, "_set_context") and (
+                    context or hasattr(el, "_get_context")):
+                # skip empty context as an optimisation:
+                # every element with _set_context
                 # sets the empty context during its initialisation.
+                # An element that is asked for its context below
+                # is never skipped: the same object may be used
+                # at several places (in another sequence),
+                # and it would return the context it was set there.
                 try:
                     el._set_context(context)
                 except LenaKeyError as exc:
